@@ -200,9 +200,15 @@ func runProc(h harnessSpec, tier string, seed int64, solver string, shardBits, s
 	for k, v := range h.Env {
 		cmd.Env = append(cmd.Env, k+"="+v)
 	}
-	budget := 20 * time.Minute
+	// per-process wall-clock budget (a shard of a harness); generous, because the machine may be shared with other
+	// checks: a process that exceeds it is reported INCONCLUSIVE, and nothing it would have explored is claimed.
+	// GOSYM_BUDGET_MIN overrides it.
+	budget := 45 * time.Minute
 	if tier == "thorough" {
-		budget = 90 * time.Minute
+		budget = 120 * time.Minute
+	}
+	if m, perr := strconv.Atoi(os.Getenv("GOSYM_BUDGET_MIN")); perr == nil && m > 0 {
+		budget = time.Duration(m) * time.Minute
 	}
 	done := make(chan struct{})
 	var out []byte
